@@ -191,6 +191,43 @@ fn cache_body() {
     std::mem::forget(sa);
 }
 
+/// Exchanging the sampler (`Rotor::with_sampler`) leaves no trace of the old one: a node that
+/// routed shred A under sampler S1 and was then switched to S2, and a node that only ever had
+/// S2, agree on the relay of every shred B - including B in the slice routed before the switch.
+fn resample_body() {
+    const N: usize = 3;
+    let own = vs::any_below(N as u8) as usize;
+    let ka = any_key();
+    let kb = any_key();
+    env::draw_cache_policy(3);
+    let (e1, o1) = (spread(any_base::<N>()), spread(any_base::<N>()));
+    let (e2, o2) = (spread(any_base::<N>()), spread(any_base::<N>()));
+    // natively the real ChaCha stream decides which of the two committees a key gets, which need
+    // not be the one the solver's model picked: the property is universal, so the same pair of
+    // keys shifted over further slices is tried as well
+    let reps = if cfg!(kani) { 1 } else { 32 };
+    let mut d = 0;
+    while d < reps {
+        let seasoned = Rotor { network: RecNet::new(), sampler: KeyedSampler { even: e1, odd: o1 }, epoch_info: env::epoch(&[1u64; N], own), relay_cache: Cache::new(MAX_CACHED_COMMITTEES) };
+        let fresh = Rotor { network: RecNet::new(), sampler: KeyedSampler { even: e2, odd: o2 }, epoch_info: env::epoch(&[1u64; N], own), relay_cache: Cache::new(MAX_CACHED_COMMITTEES) };
+        let sa = mk_shred(ka.slot, (ka.slice + d) % MAX_SLICES_PER_BLOCK, ka.index);
+        let _ = seasoned.sample_relay(&sa);
+        let switched = seasoned.with_sampler(KeyedSampler { even: e2, odd: o2 });
+        let sb = mk_shred(kb.slot, (kb.slice + d) % MAX_SLICES_PER_BLOCK, kb.index);
+        let r1 = switched.sample_relay(&sb);
+        let r2 = fresh.sample_relay(&sb);
+        vcheck!(r1 == r2, "after the sampler was exchanged a node still routes by the old sampler's cached committee");
+        vcheck!(r1.as_usize() < N, "relay outside the validator set");
+        std::mem::forget(sa);
+        std::mem::forget(sb);
+        std::mem::forget(switched);
+        std::mem::forget(fresh);
+        d += 1;
+    }
+    vcover!(ka.slot == kb.slot && ka.slice == kb.slice, "the slice routed before the switch is routed again after it");
+    vcover!(ka.slot == kb.slot && ka.slice != kb.slice, "same slot, different slice");
+}
+
 /// One of two arbitrary committees, chosen by the generator stream (a sampler whose output
 /// depends on the random stream, as the real ones do).
 pub(crate) struct KeyedSampler {
@@ -254,4 +291,5 @@ h!(c16_rotor_leader_n2, 10, leader_body::<2>);
 h!(c16_rotor_leader_n4, 10, leader_body::<4>);
 h!(c16_rotor_seed, 10, seed_body);
 h!(c16_rotor_cache, 10, cache_body);
+h!(c16_rotor_resample, 10, resample_body);
 h!(c16_ambient_partition, 6, ambient_body);
